@@ -9,5 +9,7 @@ CONSTANTS
   HalfMax = 2
   Callers = {"c1", "c2", "c3"}
   Outcomes = {"ok", "fail", "cancel", "deadline", "panic"}
+  SplitAcquire = FALSE
+  Defects = {}
 CHECK_DEADLOCK FALSE
 INVARIANTS TypeOK SemInv RingRefines
